@@ -232,7 +232,8 @@ func (calc *convexHullCalculator) padArray3(pts []float64) []float64 {
 		if i < len(pts) {
 			pad[i] = pts[i]
 		} else {
-			pad[i] = pts[0]
+			// repeat the first coordinate, ordinate by ordinate
+			pad[i] = pts[i%calc.stride]
 		}
 	}
 	return pad
